@@ -560,7 +560,7 @@ func (cpu *CPU) cmdRead16() uint16 {
 		m_Absolute_X_Indirect,
 		m_DP_Indirect_Y,
 		m_Stack_Relative_Indirect_Y:
-		ll := cpu.Bus.EaRead(cpu.StepInfo.EA) // todo - zastapic to jakos?
+		ll := cpu.Bus.EaRead(cpu.StepInfo.EA)                    // todo - zastapic to jakos?
 		hh := cpu.Bus.EaRead((cpu.StepInfo.EA + 1) & 0x00ffffff) // wrap on 24bits
 		return uint16(hh)<<8 | uint16(ll)
 
@@ -1125,6 +1125,39 @@ func (cpu *CPU) irq() {
  * ====================================================================
  */
 
+// decimalAdd adds two packed-BCD numbers of the given number of digits plus a carry, digit by
+// digit with decimal correction; the carry out is returned in the bit above the top digit.
+func decimalAdd(a, d, c uint32, digits uint) uint32 {
+	var sum uint32
+	for i := uint(0); i < digits; i++ {
+		n := (a>>(4*i))&0xF + (d>>(4*i))&0xF + c
+		c = 0
+		if n > 9 {
+			n += 6
+			c = 1
+		}
+		sum |= (n & 0xF) << (4 * i)
+	}
+	return sum | c<<(4*digits)
+}
+
+// decimalSub is the subtracting counterpart: d is the ones' complement of the subtrahend and c
+// the carry (no borrow) flag; a digit without carry out borrowed and is corrected by -6.
+func decimalSub(a, d, c uint32, digits uint) uint32 {
+	var sum uint32
+	for i := uint(0); i < digits; i++ {
+		n := (a>>(4*i))&0xF + (d>>(4*i))&0xF + c
+		if n > 0xF {
+			c = 1
+		} else {
+			c = 0
+			n -= 6
+		}
+		sum |= (n & 0xF) << (4 * i)
+	}
+	return sum | c<<(4*digits)
+}
+
 // ADC - Add with Carry
 // I'm not sure what I'm doing ;)
 func op_adc(cpu *CPU) {
@@ -1135,12 +1168,7 @@ func op_adc(cpu *CPU) {
 		sum := a + d + c
 
 		if cpu.D == 1 {
-			if (sum & 0x0F) > 0x09 {
-				sum = sum + 0x06
-			}
-			if (sum & 0xF0) > 0x90 {
-				sum = sum + 0x60
-			}
+			sum = uint16(decimalAdd(uint32(a), uint32(d), uint32(c), 2))
 		}
 
 		if sum > 0xFF {
@@ -1165,18 +1193,7 @@ func op_adc(cpu *CPU) {
 		sum := a + d + c
 
 		if cpu.D == 1 {
-			if (sum & 0x000F) > 0x0009 {
-				sum = sum + 0x0006
-			}
-			if (sum & 0x00F0) > 0x0090 {
-				sum = sum + 0x0060
-			}
-			if (sum & 0x0F00) > 0x0900 {
-				sum = sum + 0x0600
-			}
-			if (sum & 0xF000) > 0x9000 {
-				sum = sum + 0x6000
-			}
+			sum = decimalAdd(a, d, c, 4)
 		}
 
 		if sum > 0xFFFF {
@@ -1811,12 +1828,7 @@ func op_sbc(cpu *CPU) {
 		sum := a + d + c
 
 		if cpu.D == 1 {
-			if (sum & 0x0F) > 0x09 {
-				sum = sum + 0x06
-			}
-			if (sum & 0xF0) > 0x90 {
-				sum = sum + 0x60
-			}
+			sum = uint16(decimalSub(uint32(a), uint32(d), uint32(c), 2))
 		}
 
 		if sum > 0xFF {
@@ -1841,18 +1853,7 @@ func op_sbc(cpu *CPU) {
 		sum := a + d + c
 
 		if cpu.D == 1 {
-			if (sum & 0x000F) > 0x0009 {
-				sum = sum + 0x0006
-			}
-			if (sum & 0x00F0) > 0x0090 {
-				sum = sum + 0x0060
-			}
-			if (sum & 0x0F00) > 0x0900 {
-				sum = sum + 0x0600
-			}
-			if (sum & 0xF000) > 0x9000 {
-				sum = sum + 0x6000
-			}
+			sum = decimalSub(a, d, c, 4)
 		}
 
 		if sum > 0xFFFF {
